@@ -15,7 +15,7 @@ assembles the value arithmetically (`<<`, `|`).
 Regenerated from the source on every run (`Gen/StreamGen.lean`): `ASL_OTHER_ENDIAN`, the host byte
 order and `sizeof` (compiler probe), the byte-order test of every `operator<<`/`operator>>`, the byte
 count of the non-swapping `Array<T>` branch, the shift/index terms of `read2/4/8`, which `readN`
-each `operator>>` calls, the default byte orders.  Core Lean only.
+each `operator>>` calls, the index expression of `swapBytes`, the default byte orders.  Core Lean only.
 -/
 namespace AslModel.Stream
 open Gen.Stream
@@ -40,9 +40,11 @@ def objRep (w v : Nat) : List UInt8 :=
 def objVal (bs : List UInt8) : Nat :=
   if hostLittle then leVal bs else leVal bs.reverse
 
-/-- `swapBytes`: `for (i = 0; i < n; i++) by[i] = bx[n - i - 1];` -/
+/-- `swapBytes`: `for (i = 0; i < n; i++) by[i] = bx[INDEX];` with the index expression regenerated from
+    defs.h (`swapIndex n i`, today `n - i - 1`).  An index outside `bx` reads as 0 here; that it never is
+    outside is theorem `C16.swap_index_in_bounds`. -/
 def swapBytes (bx : List UInt8) : List UInt8 :=
-  (List.range bx.length).map fun i => bx.getD (bx.length - i - 1) 0
+  (List.range bx.length).map fun i => bx.getD (swapIndex bx.length i) 0
 
 /-- the bit pattern a C++ variable of type `t` holds after converting the 64-bit number `v` to it
     (what the harness does with the op argument): `bool` ⇒ `v != 0`, others ⇒ truncation -/
